@@ -196,6 +196,14 @@ func stepBudget(sc *Scenario) int {
 		n += (3000 + p.ThinkMax) * len(p.Msgs)
 	}
 	n += sc.ShutdownAfter
+	// every Read call is a step of the reader (the first thorough run raised a false liveness
+	// alarm on two 50 KiB frames arriving in 12 548 reads of 1-16 bytes: 11 000 steps allowed)
+	n += 6*len(sc.Chunks) + 6*len(sc.EmptyReads)
+	tot := 0
+	for i := range sc.Frames {
+		tot += sc.Frames[i].Size
+	}
+	n += 6 * (tot/2048 + 1)
 	return n
 }
 
